@@ -504,6 +504,29 @@ var divisionJustified = map[string]string{
 	"aggregates.(*AverageDuration).Trigger": "the group-by calls Trigger() only when AggregatedSetSize[i] > 0 (rule EMPTY, C03), and the inner count equals that set size",
 }
 
+// divisionVerdict is zeroDivisorReachable, with the guard of an unexported helper looked for in its callers: a helper
+// dividing by (something built on) a parameter is judged from each static call site, the helper followed into.
+func divisionVerdict(p *core.Program, s divSite) (bool, string, int) {
+	reach, why, paths := zeroDivisorReachable(p, s)
+	fn := s.fn
+	if reach && fn.Obj != nil && !fn.Obj.Exported() {
+		if callers := staticCallers(p, fn); len(callers) > 0 {
+			reach = false
+			for _, cs := range callers {
+				r, w, pp := zeroDivisorReachable(p, divSite{fn: cs.fn, expr: s.expr, lit: cs.lit})
+				paths += pp
+				if r {
+					reach, why = true, "called from "+p.FName(cs.fn)+": "+w
+				}
+			}
+			if !reach {
+				why = fmt.Sprintf("in each of the %d callers, every path with a zero divisor leaves before the call", len(callers))
+			}
+		}
+	}
+	return reach, why, paths
+}
+
 func checkDivisions(c *core.Ctx, rule string) {
 	p := c.Prog
 	n := 0
@@ -528,7 +551,7 @@ func checkDivisions(c *core.Ctx, rule string) {
 				c.OK(rule, key, s.expr.Pos(), 1, "justified: "+why)
 				continue
 			}
-			reach, why, paths := zeroDivisorReachable(p, s)
+			reach, why, paths := divisionVerdict(p, s)
 			c.Decide(!reach, rule, key, s.expr.Pos(), paths, why, "integer division can panic (runtime error: integer divide by zero): "+why)
 		}
 	}
